@@ -159,10 +159,13 @@ impl ColumnMetrics {
         let line_break = self.line_ending.as_str();
 
         if text[..base.byte].ends_with(line_break) {
-            let new_pos = Pos::new(
-                base.byte - line_break.len(),
-                base.page.line - 1,
-                0);
+            // The previous position is the end of the previous line; its
+            // column must be measured from the start of that line.
+            let prev_byte = base.byte - line_break.len();
+            let line_start = self.line_start_position(
+                text,
+                Pos::new(prev_byte, base.page.line - 1, 0));
+            let new_pos = self.end_position(&text[..prev_byte], line_start);
             return Some(new_pos);
         }
 
